@@ -205,13 +205,18 @@ def m_flag(cat, t, rng):
 
 
 def m_format_flag(cat, t, rng):
+    """a *-format flag with a hostile character inside its name, next to the flags that refer to the same format
+    (redundant / conflicting flag diagnostics quote the flag text)"""
     h = ''.join(ch for ch in t if ch not in ',\n')[:3] or ' '
     if rng.random() < 0.7:
         # characters str.strip() removes: a tolerant reading of the flag would still recognise the format
         h = rng.choice(['\r', '\t', '\x0b', '\x0c', '\x1c', '\x1d', '\x1e', '\x1f', '\x85', '\u2028', '\u2029', ' ', '\xa0', '\u3000'])
     fmt = rng.choice(['c', 'python', 'python-brace', 'perl-brace'])
-    bad = rng.choice([fmt + h + '-format', h + fmt + '-format', fmt + '-format' + h, fmt[:1] + h + fmt[1:] + '-format'])
-    cat['entries'].append({'msgid': 'ff %d' % rng.randrange(1000), 'msgstr': 'y', 'flags': [bad, rng.choice(['possible-', 'no-', 'impossible-']) + fmt + '-format']})
+    k = rng.randrange(1000)
+    for n, (bad, other) in enumerate([(fmt + h + '-format', 'possible-' + fmt + '-format'), (h + fmt + '-format', 'possible-' + fmt + '-format'),
+                                      (fmt + h + '-format', 'no-' + fmt + '-format'), (fmt + '-format', 'possible-' + fmt + h + '-format'),
+                                      ('possible-' + fmt + h + '-format', fmt + h + '-format')]):
+        cat['entries'].append({'msgid': 'ff %d %d' % (k, n), 'msgstr': 'y', 'flags': [bad, other]})
 
 
 def m_range_flag(cat, t, rng):
